@@ -211,6 +211,7 @@ class Seq:
         world.grow(rng.choice([8, 12, 18]), rng, tx_prob=0.6, bias="mixed")
         self.sn = nodekit.SingleNode(world, rng, "c13-%d" % idx, npeers=2)
         self.ops = []
+        self.refused = []
         self.w = {"chain": gen.blocks_hex(world, world.chain.order[1:]), "ops": self.ops}
 
     def snapshot(self):
@@ -241,10 +242,14 @@ class Seq:
     def submit(self, name, via):
         mon, c, world, rng = self.mon, self.mon.c, self.world, self.rng
         head, pool = self.snapshot()
-        try:
-            t = SUBMISSIONS[name](world, head, pool, rng)
-        except Exception:
-            t = None
+        if name == "resubmit-refused":
+            # a transaction refused earlier is submitted again (verdicts must not depend on what was seen before)
+            t = rng.choice(self.refused)[0] if self.refused else None
+        else:
+            try:
+                t = SUBMISSIONS[name](world, head, pool, rng)
+            except Exception:
+                t = None
         if t is None:
             return
         c["operations"] += 1
@@ -285,6 +290,8 @@ class Seq:
                 self.mon.v("pool-changed-although-submission-refused", "", dict(self.w))
         else:
             c["refused"] += 1
+            if name != "resubmit-refused" and len(self.refused) < 200:
+                self.refused.append((t, name))
             if ok_expected and t.id() not in ids_before:
                 c["valid_refused"] += 1
             if ids_after != ids_before:
@@ -381,7 +388,7 @@ class Seq:
             if r < 0.22:
                 self.head_change()
             else:
-                name = "valid" if r < 0.55 else rng.choice(names)
+                name = "valid" if r < 0.55 else rng.choice(names + ["resubmit-refused", "resubmit-refused"])
                 self.submit(name, "api" if rng.random() < 0.5 else "wire")
         self.sn.close()
 
@@ -466,6 +473,7 @@ def replay(mon, w):
             world.accept(rb, bridge.rblock_to_real(rb), validate=False)
     seq.sn = nodekit.SingleNode(world, rng, "c13-replay", npeers=2)
     seq.ops = []
+    seq.refused = []
     seq.w = w
     for o in w["ops"]:
         if o[0] == "submit":
